@@ -67,7 +67,7 @@ package keeper
 // Deposit: the whole order amount moves from the order escrow to the market escrow.
 //@ func (Keeper) Deposit(ctx, order) (err)
 //@   modifies Bank
-//@   ensures [C04.deposit] err == nil && moduleAddr("order") != moduleAddr("market") ==> order.Amount.Amount > 0
+//@   ensures [C04.deposit] [C06.deposit] err == nil && moduleAddr("order") != moduleAddr("market") ==> order.Amount.Amount > 0
 //@       && bal(moduleAddr("market"), order.Amount.Denom) == old(bal(moduleAddr("market"), order.Amount.Denom)) + order.Amount.Amount
 //@       && bal(moduleAddr("order"), order.Amount.Denom) == old(bal(moduleAddr("order"), order.Amount.Denom)) - order.Amount.Amount
 //@   ensures [C04.deposit.frame] forall a addr, d string :: (a != moduleAddr("order") && a != moduleAddr("market")) || d != order.Amount.Denom ==> bal(a, d) == old(bal(a, d))
@@ -81,7 +81,7 @@ package keeper
 //@   modifies Worker, Bank
 //@   ensures [C04.withdraw.repinv] forall w string :: has(Worker, w) ==> Worker[w].Workername == w
 //@   ensures [C04.withdraw.bank] forall a addr, d string :: a != moduleAddr("market") && a != moduleAddr("order") ==> bal(a, d) == old(bal(a, d))
-//@   ensures [C04.withdraw.to] err == nil && refund.Amount > 0 && moduleAddr("market") != moduleAddr("order") ==>
+//@   ensures [C04.withdraw.to] [C06.withdraw.to] err == nil && refund.Amount > 0 && moduleAddr("market") != moduleAddr("order") ==>
 //@       bal(moduleAddr("order"), refund.Denom) == old(bal(moduleAddr("order"), refund.Denom)) + refund.Amount
 //@       && bal(moduleAddr("market"), refund.Denom) == old(bal(moduleAddr("market"), refund.Denom)) - refund.Amount
 //@   ensures [C04.withdraw.nonneg] err == nil ==> refund.Amount >= 0
